@@ -266,6 +266,21 @@ class SymExt:
             return None
         ln = view.length()
         n = ln.get(1, 0) if set(ln) <= {1} else None
+        if isinstance(fmt, str) and len(fmt) > 2 and fmt[0] in ">!" and all(ch in "BHIL" for ch in fmt[1:]) and not pad and n is not None:
+            # several big-endian unsigned fields: each is the big-endian combination of its bytes (recombined by the caller)
+            widths = {"B": 1, "H": 2, "I": 4, "L": 4}
+            if sum(widths[ch] for ch in fmt[1:]) == n:
+                out, off = [], 0
+                for ch in fmt[1:]:
+                    term = None
+                    for i in range(widths[ch]):
+                        b = ("byte", view.sid, tuple(sorted(add(view.start, {1: off + i}).items(), key=lambda kv: str(kv[0]))))
+                        sh = 8 * (widths[ch] - 1 - i)
+                        piece = b if sh == 0 else ("fn", "byteop", [("c", "LShift"), b, ("c", sh)])
+                        term = piece if term is None else ("fn", "byteop", [("c", "BitOr"), term, piece])
+                    out.append(term)
+                    off += widths[ch]
+                return ("list", out)
         ok, why = True, ""
         try:
             size = struct.calcsize(fmt)
